@@ -9,8 +9,9 @@ stops its dependents and is retried next time."
 
 These theorems decide the clauses that are decisions of the Ninja driver itself (model: Model/NinjaBuild.lean,
 tables regenerated from lib/Commands/NinjaBuildCommand.cpp by extract/x_ninjabuild.py).  The whole-build clauses
-(convergence, null rebuild) additionally rest on the engine (C01/C02) and are checked end to end through the real
-`llbuild ninja build` by vlib/props/c18.py; `C18_converges` (C01 instantiated for the Ninja client) is NOT proved.
+(convergence, null rebuild, minimality, failures) are proved in Props/C18World.lean over the world model
+Model/NinjaWorld.lean, which composes these decision functions the way the engine does and is compared with the real
+`llbuild ninja build` on every generated history by vlib/props/c18.py (stream `world`).
 -/
 import LLBuild.Lemmas.NinjaBuild
 
